@@ -133,6 +133,10 @@ def main(tier):
             ff = dict(files)
             ff[target] = ff[target] + apidoc.render([FAULT_BLOCK], header=False)[0]
             main_text = apidoc.render(main_blocks)[0]
+            # every file of the project in its own newline convention
+            conv = {k: rnd.choice(["\n", "\n", "\r\n", "\r"]) for k in list(ff) + ["main.jst"]}
+            ff = {k: v.replace("\n", conv[k]) for k, v in ff.items()}
+            main_text = main_text.replace("\n", conv["main.jst"])
             cid = "i%d_%s" % (n, nm)
             allf = {"main.jst": main_text}
             allf.update(ff)
